@@ -31,7 +31,7 @@ def main():
             evidence_file=f"/verif/evidence/{pid}.json",
             replay_cmd_template=f"./check {pid} --replay {{path}}",
             engine="harness",
-            level_claimed=dict(category=c["level"], text=c.get("level_text", c["rule"]), design_ref=c.get("design_ref", f"DESIGN.md section 4, {pid}")),
+            level_claimed=dict(category=c["level"], text=c.get("level_text") or ("Runtime monitoring of the real code: the property held on every execution this run produced (measured counts are in the evidence file); nothing is claimed for inputs, schedules or faults outside the workload. Workload and oracle: " + c["rule"]), design_ref=c.get("design_ref", f"DESIGN.md section 4, {pid}")),
             level_note=c.get("level_note", "; ".join(c.get("assumptions", []) + props.COMMON_ASSUMPTIONS)),
             technique=c.get("technique") or props.TECHNIQUE.get(pid, "runtime monitoring: oracle over observed executions of the real code under generated and hostile workloads"),
         ))
